@@ -45,7 +45,8 @@ struct Handles : Profile {
     std::vector<std::string> required_probes() const override
     {
         return {"stale-rejected", "wrongkind-rejected", "never-rejected", "double-release-rejected", "close-refused-with-aids", "nested-open",
-                "upgrade-open", "foreign-rejected", "teardown", "identity-checked", "shadow-run-compared"};
+                "upgrade-open", "foreign-rejected", "teardown", "identity-checked", "shadow-run-compared", "wrongkind-hlevel",
+                "stale-extra-call", "wrongkind-extra-call", "never-extra-call"};
     }
 
     Plan generate(Rng &rng, bool thorough, uint64_t) override
@@ -72,13 +73,13 @@ struct Handles : Profile {
                     p.ops.push_back(mkop(0, names[k], {(int64_t)r.below(100)}));
                     break;
                 case 4:
-                    p.ops.push_back(mkop(0, names[k], {(int64_t)r.below(100), (int64_t)r.below(3)}));
+                    p.ops.push_back(mkop(0, names[k], {(int64_t)r.below(100), (int64_t)r.below(3), (int64_t)r.below(14)}));
                     break;
                 case 5:
-                    p.ops.push_back(mkop(0, names[k], {(int64_t)r.below(100), (int64_t)r.below(NKIND)}));
+                    p.ops.push_back(mkop(0, names[k], {(int64_t)r.below(100), (int64_t)r.below(NKIND), (int64_t)r.below(14)}));
                     break;
                 case 6:
-                    p.ops.push_back(mkop(0, names[k], {(int64_t)r.below(NKIND), (int64_t)r.below(6)}));
+                    p.ops.push_back(mkop(0, names[k], {(int64_t)r.below(NKIND), (int64_t)r.below(6), (int64_t)r.below(14)}));
                     break;
                 default:
                     p.ops.push_back(mkop(0, names[k], {(int64_t)r.below(100)}));
@@ -180,6 +181,132 @@ struct Handles : Profile {
         }
         return false;
     }
+    // Further entry points of each interface, tried only with ids that are known to be invalid (released, of another
+    // kind, never issued): 1 = the call reported success, 0 = refused, -1 = nothing to try.  Every call here fails for no
+    // other reason than its id, and a refused call has no effect (the shadow run compares the files).
+    int extra_accepts(int kind, int32 id, int which, const char **name)
+    {
+        uint8  buf[64];
+        int32  i32 = 0, j32 = 0, dims[H4_MAX_VAR_DIMS] = {0}, st[H4_MAX_VAR_DIMS] = {0}, ed[H4_MAX_VAR_DIMS];
+        uint16 t = 0, r = 0;
+        char   nm[512];
+        uint32 u[4];
+        for (auto &e : ed)
+            e = 1;
+        memset(buf, 0, sizeof buf);
+#define XC(n, nmstr, expr)                                                                                                            \
+    case n:                                                                                                                            \
+        *name = nmstr;                                                                                                                 \
+        return (expr) ? 1 : 0;
+        switch (kind) {
+            case H_FID:
+                switch (which % 12) {
+                    XC(0, "Hnumber", Hnumber(id, DFTAG_WILDCARD) != FAIL)
+                    XC(1, "Hnewref", Hnewref(id) != 0)
+                    XC(2, "Hsync", Hsync(id) != FAIL)
+                    XC(3, "Hgetfileversion", Hgetfileversion(id, &u[0], &u[1], &u[2], nm) != FAIL)
+                    XC(4, "Htagnewref", Htagnewref(id, 8801) != 0)
+                    XC(5, "Vstart", Vstart(id) != FAIL)
+                    XC(6, "GRstart", GRstart(id) != FAIL)
+                    XC(7, "ANstart", ANstart(id) != FAIL)
+                    XC(8, "Hcache", Hcache(id, TRUE) != FAIL)
+                    XC(9, "Hputelement", Hputelement(id, 8802, 1, buf, 8) != FAIL)
+                    XC(10, "VSattach", VSattach(id, -1, "w") != FAIL)
+                    XC(11, "Hfind", Hfind(id, DFTAG_WILDCARD, DFREF_WILDCARD, &t, &r, &i32, &j32, DF_FORWARD) != FAIL)
+                }
+                break;
+            case H_AID:
+                switch (which % 10) {
+                    XC(0, "Hread", Hread(id, 1, buf) != FAIL)
+                    XC(1, "Hseek", Hseek(id, 0, DF_START) != FAIL)
+                    XC(2, "Htell", Htell(id) != FAIL)
+                    XC(3, "Hwrite", Hwrite(id, 1, buf) != FAIL)
+                    XC(4, "Htrunc", Htrunc(id, 0) != FAIL)
+                    XC(5, "Hnextread", Hnextread(id, DFTAG_WILDCARD, DFREF_WILDCARD, DF_CURRENT) != FAIL)
+                    XC(6, "Happendable", Happendable(id) != FAIL)
+                    XC(7, "HQuerylength", HQuerylength(id, &i32) != FAIL)
+                    XC(8, "Hsetlength", Hsetlength(id, 4) != FAIL)
+                    XC(9, "HQueryposition", HQueryposition(id, &i32) != FAIL)
+                }
+                break;
+            case H_VS:
+                switch (which % 8) {
+                    XC(0, "VSinquire", VSinquire(id, &i32, &j32, nm, &dims[0], nm) != FAIL)
+                    XC(1, "VSseek", VSseek(id, 0) != FAIL)
+                    XC(2, "VSsetfields", VSsetfields(id, "x") != FAIL)
+                    XC(3, "VSread", VSread(id, buf, 1, FULL_INTERLACE) != FAIL)
+                    XC(4, "VSwrite", VSwrite(id, buf, 1, FULL_INTERLACE) != FAIL)
+                    XC(5, "VSfnattrs", VSfnattrs(id, _HDF_VDATA) != FAIL)
+                    XC(6, "VSsetname", VSsetname(id, "zz") != FAIL)
+                    XC(7, "VSgetclass", VSgetclass(id, nm) != FAIL)
+                }
+                break;
+            case H_VG:
+                switch (which % 7) {
+                    XC(0, "Vgettagref", Vgettagref(id, 0, &i32, &j32) != FAIL)
+                    XC(1, "Vaddtagref", Vaddtagref(id, 8800, 1) != FAIL)
+                    XC(2, "Vnattrs", Vnattrs(id) != FAIL)
+                    XC(3, "Vsetname", Vsetname(id, "zz") != FAIL)
+                    XC(4, "Vgetclass", Vgetclass(id, nm) != FAIL)
+                    XC(5, "Vinqtagref", Vinqtagref(id, 8800, 1) != FALSE)
+                    XC(6, "Vdeletetagref", Vdeletetagref(id, 8800, 1) != FAIL)
+                }
+                break;
+            case H_SD:
+                switch (which % 5) {
+                    XC(0, "SDselect", SDselect(id, 0) != FAIL)
+                    XC(1, "SDnametoindex", SDnametoindex(id, "hsd0_0") != FAIL)
+                    XC(2, "SDcreate", SDcreate(id, "zz", DFNT_INT32, 1, ed) != FAIL)
+                    XC(3, "SDsetattr", SDsetattr(id, "zz", DFNT_UINT8, 1, buf) != FAIL)
+                    XC(4, "SDreftoindex", SDreftoindex(id, 1) != FAIL)
+                }
+                break;
+            case H_SDS:
+                switch (which % 6) {
+                    XC(0, "SDgetdimid", SDgetdimid(id, 0) != FAIL)
+                    XC(1, "SDreaddata", SDreaddata(id, st, NULL, ed, buf) != FAIL)
+                    XC(2, "SDwritedata", SDwritedata(id, st, NULL, ed, buf) != FAIL)
+                    XC(3, "SDidtoref", SDidtoref(id) != FAIL)
+                    XC(4, "SDsetdatastrs", SDsetdatastrs(id, "l", NULL, NULL, NULL) != FAIL)
+                    XC(5, "SDiscoordvar", SDiscoordvar(id) == TRUE)
+                }
+                break;
+            case H_GR:
+                switch (which % 4) {
+                    XC(0, "GRselect", GRselect(id, 0) != FAIL)
+                    XC(1, "GRnametoindex", GRnametoindex(id, "hri0_0") != FAIL)
+                    XC(2, "GRcreate", GRcreate(id, "zz", 1, DFNT_UINT8, MFGR_INTERLACE_PIXEL, ed) != FAIL)
+                    XC(3, "GRreftoindex", GRreftoindex(id, 1) != FAIL)
+                }
+                break;
+            case H_RI:
+                switch (which % 5) {
+                    XC(0, "GRgetlutid", GRgetlutid(id, 0) != FAIL)
+                    XC(1, "GRreadimage", GRreadimage(id, st, NULL, ed, buf) != FAIL)
+                    XC(2, "GRwriteimage", GRwriteimage(id, st, NULL, ed, buf) != FAIL)
+                    XC(3, "GRidtoref", GRidtoref(id) != 0)
+                    XC(4, "GRreqimageil", GRreqimageil(id, MFGR_INTERLACE_PIXEL) != FAIL)
+                }
+                break;
+            case H_AN:
+                switch (which % 3) {
+                    XC(0, "ANnumann", ANnumann(id, AN_DATA_LABEL, 8800, 1) != FAIL)
+                    XC(1, "ANcreatef", ANcreatef(id, AN_FILE_LABEL) != FAIL)
+                    XC(2, "ANselect", ANselect(id, 0, AN_FILE_LABEL) != FAIL)
+                }
+                break;
+            case H_ANN:
+                switch (which % 3) {
+                    XC(0, "ANreadann", ANreadann(id, nm, 16) != FAIL)
+                    XC(1, "ANwriteann", ANwriteann(id, "zz", 2) != FAIL)
+                    XC(2, "ANget_tagref-id", ANid2tagref(id, &t, &r) != FAIL)
+                }
+                break;
+        }
+#undef XC
+        return -1;
+    }
+
     // the release call of a kind; true if it reported success
     bool release_call(int kind, int32 id)
     {
@@ -592,6 +719,11 @@ struct Handles : Profile {
                         if (query(s, x.kind, x.id, nullptr))
                             ctx.fail("stale-accepted", strf("stale-accepted:query:%d", x.kind), strf("a released %s (0x%x) is still accepted by its interface", KNAME[x.kind], (unsigned)x.id));
                         ctx.probe("stale-rejected");
+                        const char *cn = "";
+                        if (o.arg(2) > 0 && extra_accepts(x.kind, x.id, (int)o.arg(2) - 1, &cn) == 1)
+                            ctx.fail("stale-accepted", strf("stale-accepted:%s", cn), strf("a released %s (0x%x) is accepted by %s", KNAME[x.kind], (unsigned)x.id, cn));
+                        if (o.arg(2) > 0)
+                            ctx.probe("stale-extra-call");
                     }
                 }
             }
@@ -605,8 +737,10 @@ struct Handles : Profile {
                     // SD ids live in their own number space: an SD/SDS id may numerically equal an atom and vice versa
                     bool sdspace = x.kind == H_SD || x.kind == H_SDS, tgt_sd = kind == H_SD || kind == H_SDS;
                     bool fid_an = (x.kind == H_FID && kind == H_AN) || (x.kind == H_AN && kind == H_FID); // same id by design
-                    bool hlevel = (kind == H_FID || kind == H_AID || kind == H_AN) && p.knob("unguard_hlevel_group", 0) == 0; // known finding C13-hlevel-no-group-check
-                    if (kind == x.kind || (sdspace && tgt_sd) || is_live_value(s, kind, x.id) || fid_an || hlevel)
+                    // (ids of other kinds used to be kept away from calls taking a file, access or AN id: repaired, findings/fixed)
+                    if (kind == H_FID || kind == H_AID || kind == H_AN)
+                        ctx.probe("wrongkind-hlevel");
+                    if (kind == x.kind || (sdspace && tgt_sd) || is_live_value(s, kind, x.id) || fid_an)
                         done = false;
                     else {
                         ctx.st.checks++;
@@ -614,6 +748,11 @@ struct Handles : Profile {
                             ctx.fail("wrongkind-accepted", strf("wrongkind-accepted:%d-as-%d", x.kind, kind),
                                      strf("a %s (0x%x) is accepted where a %s is required", KNAME[x.kind], (unsigned)x.id, KNAME[kind]));
                         ctx.probe("wrongkind-rejected");
+                        const char *cn = "";
+                        if (o.arg(2) > 0 && extra_accepts(kind, x.id, (int)o.arg(2) - 1, &cn) == 1)
+                            ctx.fail("wrongkind-accepted", strf("wrongkind-accepted:%s", cn), strf("a %s (0x%x) is accepted by %s", KNAME[x.kind], (unsigned)x.id, cn));
+                        if (o.arg(2) > 0)
+                            ctx.probe("wrongkind-extra-call");
                     }
                 }
             }
@@ -630,6 +769,11 @@ struct Handles : Profile {
                     if (release_call(kind, id))
                         ctx.fail("never-accepted", strf("never-accepted:release:%d", kind), strf("releasing the never issued value 0x%x as a %s reports success", (unsigned)id, KNAME[kind]));
                     ctx.probe("never-rejected");
+                    const char *cn = "";
+                    if (o.arg(2) > 0 && extra_accepts(kind, id, (int)o.arg(2) - 1, &cn) == 1)
+                        ctx.fail("never-accepted", strf("never-accepted:%s", cn), strf("the never issued value 0x%x is accepted by %s", (unsigned)id, cn));
+                    if (o.arg(2) > 0)
+                        ctx.probe("never-extra-call");
                 }
             }
             else if (k == "closebusy") {
